@@ -251,6 +251,7 @@ class Gen:
             else:
                 local, uri = r.choice(NAMES), r.choice(NS)
             e, sc = self.element(local, uri, scope)
+            leaf = False
             if not is_root or root_attrs:
                 attrs, decls, sc = self.rand_attrs(sc, trig)
                 e.attrs, e.decls = attrs, e.decls + decls
@@ -273,14 +274,23 @@ class Gen:
                     choices = [xs + ":string", xs + ":int", xs + ":boolean", xs + ":token", xs + ":long", "foo", "unknown"]
                     if pre:
                         choices += [r.choice(pre) + ":foo"] * 2
+                    choices += [xs + ":QName", xs + ":NOTATION"]
                     e.attrs.append(((xsi, "type"), r.choice(choices)))
-                    if r.random() < 0.5:
+                    if e.attrs[-1][1].endswith((":QName", ":NOTATION")):
+                        leaf = True   # the model covers the child-element error only for the modelled datatypes
+                        if r.random() < 0.4:    # a prefix bound only here, to a namespace nothing else uses
+                            e.decls.append(("v", "urn:v"))
+                            sc = dict(sc, v="urn:v")
+                            e.text = "v:thing"
+                        else:
+                            e.text = r.choice([q for q in sc if q is not None]) + ":thing" if r.random() < 0.7 else "thing"
+                    elif r.random() < 0.5:
                         e.text = r.choice(["5", " 05 ", "true", "abc", "", "70000", "-1", "1_0"])
             if not e.text:
                 e.text = self.rand_text(trig)
             if not is_root:
                 e.tail = self.rand_text(trig)
-            nk = 0 if depth >= max_depth else r.choice([0, 0, 1, 1, 2, 3, 4])
+            nk = 0 if depth >= max_depth or leaf else r.choice([0, 0, 1, 1, 2, 3, 4])
             for _ in range(nk):
                 if budget[0] <= 0:
                     break
@@ -503,7 +513,7 @@ GUARD_CLASS = {16384: "typed-child-tail-in-non-mixed-holder", 32768: "single-hol
                1024: "xsi-type-unprefixed-under-default-namespace", 2048: "python-whitespace-only-text-dropped",
                4096: "xsi-type-primitive-under-holder-wildcard-lossy"}
 CORR_CLASS = {1: "corr-handler-events", 2: "corr-parse", 4: "corr-generator-events", 8: "corr-writer",
-              65536: "corr-writer-user-nsmap"}
+              65536: "corr-writer-user-nsmap", 131072: "xsi-type-qname-value-changed-in-output"}
 
 
 def pick_placements(doc_no, root_uri, n):
@@ -651,6 +661,26 @@ def build_docs(ck):
                 child.attrs, child.decls = sc_attrs, child.decls + e_decls
                 root = El((None, "R"), [(None, root_uri)] if root_uri else [], kids=[child])
                 add("exh-attr-ns", root)
+    # V: first-level children typed xs:QName / xs:NOTATION by xsi:type, value in a namespace bound only on that
+    #    element / the element's own / the default / the XSD namespace / unprefixed, all four holder kinds
+    for dt in ("QName", "NOTATION"):
+        for mode in ("foreign", "own", "default", "xs", "plain", "padded"):
+            for kind in KINDS:
+                rd = [("xsi", XSI), ("xs", XS)]
+                cd, cq, text = [], (None, "q"), "thing"
+                if mode == "foreign":
+                    cd, text = [("p", "urn:p")], "p:thing"
+                elif mode == "padded":
+                    cd, text = [("p", "urn:p")], " p:thing\n"
+                elif mode == "own":
+                    cd, cq, text = [("o", "urn:b")], ("o", "q"), "o:thing"
+                elif mode == "default":
+                    cd, text = [(None, "urn:b")], "thing"
+                elif mode == "xs":
+                    text = "xs:int"
+                child = El(cq, cd, [(("xsi", "type"), "xs:" + dt)], text=text, tail=r.choice(["", "\n"]))
+                add("exh-qname-value", El((None, "R"), rd, kids=[El((None, "a")), child, El((None, "b"), text="x")]),
+                    placements=[kind + "-any-n-0"])
     # D: one witness per listed finding (first, so that findings are attributed to them), E: chunk boundaries
     docs = witness_docs() + docs[q0:] + docs[:q0]
     docs += big_docs(g, r, ck.n(16, 80))
